@@ -69,9 +69,15 @@ def policy(g, prof, n_edges, allow_fa=True):
     if p in ("FIRST_AVAILABLE", "ROUND_ROBIN", "RANDOM"):
         return p
     hi = n_edges + (1 if prof.get("bad_index") and g.chance(1, 6) else 0)
+    # a negative answer is out of range as well (Python would wrap it silently): -1 .. -n_edges, later in the answer list
+    # rather than first, so that valid routing happens before it
+    neg = prof.get("bad_index") and g.chance(1, 8)
     if p == "const":
-        return {"const": g.n(hi)}
-    return {p: [g.n(hi) for _ in range(1 + g.n(4))]}
+        return {"const": -(1 + g.n(n_edges)) if neg else g.n(hi)}
+    vals = [g.n(hi) for _ in range(1 + g.n(4))]
+    if neg:
+        vals[len(vals) - 1 - g.n(min(2, len(vals)))] = -(1 + g.n(n_edges))
+    return {p: vals}
 
 
 def edge_spec(g, prof, eid, src, dst, kinds=None):
